@@ -17,7 +17,7 @@ def run(res, tier, replay=None):
                        "sweeper recomputes from the type row and the stored length field (linear forms over "
                        "constant-evaluated sizes; fixed rows compared after 32-byte chunk alignment); (b) size-determining "
                        "length fields are written only on an object allocated earlier in the same function; (c) every sexp_make_heap call passes a size that is provably a multiple of the allocation granule (abstract evaluation of the size expression: align masks, aligned sums, integer multiples, ceil). (d) type rows vs record layout (shared with C02.R5): the traced range is exactly the reference fields and the traced slot count of a variable-length type is its live-slot counter (the stack's top, not its capacity: stale slots would keep garbage alive). (e) every walk over the objects of a heap segment (sweep, finalize, weak-reference reset, statistics) runs while p < h->data + h->size exactly; a size computed into a local before the allocation is compared with the values its variables have at the allocation. Not decided: "
-                       "(e) sexp_alloc returns the shared out-of-memory exception object when the heap cannot grow (read from its code, closed under functions that return such a result): a store through the result of such a call - directly or through a pointer local derived from it - is preceded on every path by a test that excludes the exception object; violations in the allocator layer itself and in vm.c (results of every constructor followed there), advisory for constructors elsewhere that fill in an untested object. "
+                       "(e) sexp_alloc returns the shared out-of-memory exception object when the heap cannot grow (read from its code, closed under functions that return such a result): a store through the result of such a call - directly or through a pointer local derived from it - is preceded on every path by a test that excludes the exception object; results of the allocator layer are followed in every unit, results of every constructor in vm.c. "
                        "coalescing arithmetic of sexp_sweep, free-list order, growth policy, boundedness of heap size.")
     if tier == "thorough":
         common.config_matrix(res, lambda p, r: (f3.c10a_alloc_sites(p, r), f3.c10b_length_writers(p, r)), violation=False)
